@@ -163,22 +163,19 @@ func sequential(c *vf.Ctx, si int) {
 	fail := func(key, msg string) {
 		c.Violation("seq/"+key, fmt.Sprintf("%s after ops %v:\n  %s", name, tail(trace, 25), msg), map[string]interface{}{"scenario": name, "ops": trace})
 	}
-	check := func(exact bool) bool {
+	evalOnce := func(exact bool) (string, string, bool) {
 		nut.MempoolSync()
 		snap, err := nut.MempoolSnapshot()
 		if err != nil {
-			fail("node-died", err.Error())
-			return false
+			return "node-died", err.Error(), false
 		}
 		views, problems := viewOf(snap)
 		if len(problems) > 0 {
-			fail("invariant/"+norm(problems[0]), strings.Join(problems, "\n  "))
-			return false
+			return "invariant/"+norm(problems[0]), strings.Join(problems, "\n  "), false
 		}
 		st, _ := nut.MempoolStat()
 		if st != nil && (st.Total != snap.Length || st.Orphan != snap.Orphan) {
-			fail("reported-totals-differ", fmt.Sprintf("Size() reports %d/%d, the pool holds %d/%d", st.Total, st.Orphan, snap.Length, snap.Orphan))
-			return false
+			return "reported-totals-differ", fmt.Sprintf("Size() reports %d/%d, the pool holds %d/%d", st.Total, st.Orphan, snap.Length, snap.Orphan), false
 		}
 		// what the producer is offered
 		got, _ := nut.MempoolGet()
@@ -205,18 +202,15 @@ func sequential(c *vf.Ctx, si int) {
 			if v != nil {
 				have = v.nonces
 				if v.base != state[a] {
-					fail("stale-account-state", fmt.Sprintf("account a%d: the pool's list is based on nonce %d, the chain state says %d", a, v.base, state[a]))
-					return false
+					return "stale-account-state", fmt.Sprintf("account a%d: the pool's list is based on nonce %d, the chain state says %d", a, v.base, state[a]), false
 				}
 			}
 			if exact && fmt.Sprint(have) != fmt.Sprint(want) {
-				fail("pool-differs-from-model", fmt.Sprintf("account a%d (state nonce %d): pool holds nonces %v, model %v", a, state[a], have, want))
-				return false
+				return "pool-differs-from-model", fmt.Sprintf("account a%d (state nonce %d): pool holds nonces %v, model %v", a, state[a], have, want), false
 			}
 			for _, n := range have {
 				if n <= state[a] {
-					fail("stale-tx-in-pool", fmt.Sprintf("account a%d: pooled nonce %d <= state nonce %d", a, n, state[a]))
-					return false
+					return "stale-tx-in-pool", fmt.Sprintf("account a%d: pooled nonce %d <= state nonce %d", a, n, state[a]), false
 				}
 			}
 			// offered = gap-free run from state+1
@@ -229,15 +223,30 @@ func sequential(c *vf.Ctx, si int) {
 				}
 			}
 			if fmt.Sprint(offered[id]) != fmt.Sprint(run) {
-				fail("offered-run-wrong", fmt.Sprintf("account a%d (state nonce %d, pooled %v): producer is offered %v, expected the gap-free ascending run %v", a, state[a], have, offered[id], run))
-				return false
+				return "offered-run-wrong", fmt.Sprintf("account a%d (state nonce %d, pooled %v): producer is offered %v, expected the gap-free ascending run %v", a, state[a], have, offered[id], run), false
 			}
 		}
 		if snap.Length > 0 {
 			c.Nontrivial(fmt.Sprintf("%s|%d", name, len(trace)))
 		}
-		return true
+		return "", "", true
 	}
+	// Puts travel through the verifier actors: a tx handed back by a reorganisation may still be on
+	// its way when the main pool actor has already answered. A disagreement counts only if it
+	// persists once the pool is quiescent (bounded number of re-evaluations).
+	check := func(exact bool) bool {
+		var key, msg string
+		for attempt := 0; attempt < 60; attempt++ {
+			var ok bool
+			if key, msg, ok = evalOnce(exact); ok {
+				return true
+			}
+			time.Sleep(25 * time.Millisecond)
+		}
+		fail(key, msg)
+		return false
+	}
+
 	nops := c.Pick(60, 200)
 	for step := 0; step < nops; step++ {
 		c.Eval(1)
